@@ -18,7 +18,7 @@ from vlib.vsim import Unsupported, fmt
 
 PID = 'C15'
 RULE = ("configs: {SyncFlag, Mailbox[Unsigned[2]]} x (tx_delay, rx_delay) in {0..3}^2 (+ delay=k) x consumer style {plain if, "
-        "coroutine receive(), async with} x producer style {plain, coroutine} x {two contexts, one context (delay 0)}; "
+        "coroutine receive(), async with, async with left by return in a helper, receive inside a std.Executor action, observe-twice} x producer style {plain, coroutine} x {two contexts, one context (delay 0)}; "
         "inputs per clock: want_send, force_set, can_recv, payload (all 32 valuations in every reached joint state up to a "
         "budget, then 3000 random clocks at several densities, then drain).  distinct_nontrivial = configs with >= 30 joint "
         "states and >= 20 delivered events.")
